@@ -12,6 +12,7 @@ and insignificant whitespace, JSON modulo key order and explicit nulls).
 from __future__ import annotations
 
 import json
+import random
 import warnings
 from decimal import Decimal
 
@@ -194,14 +195,58 @@ def run(ctx):
     # the reproducer of F29 (irregular interleaving) and its regular counterpart, in every run
     xml_files(ctx, {"s0.xml": "<Root><b>-7</b><c>1</c><d>a b</d><b>1</b><b>-7</b><c>1</c><d>a b</d></Root>"})
     xml_files(ctx, {"s0.xml": "<Root><h>1</h><b>-7</b><c>1</c><d>a b</d><b>1</b><c>2</c><d>t</d><z>9</z></Root>"})
+    mixed_samples(ctx)
     cg.cleanup_all()
+
+
+KID_XML = {"s": "<em>x{i}</em>", "a": '<ref kind="k{i}">b{i}</ref>', "k": "<k><v>{i}</v></k>"}   # one name per kind of child: names are used consistently
+
+
+def mixed_xml(kids, texts, sibling):
+    parts = ["lead " if 0 in texts else ""]
+    for i, k in enumerate(kids, 1):
+        parts.append(KID_XML[k].format(i=i))
+        if i in texts:
+            parts.append(f" tail {i} ")
+    return "<Root><note>" + "".join(parts).strip(" ") + "</note>" + ("<id>4</id>" if sibling else "") + "</Root>"
+
+
+def mixed_samples(ctx):
+    """spec/MC_InferMixed.tla: text next to child elements, at every position, next to every kind of child."""
+    res = ctx.tlc("MC_InferMixed", "run.cfg", workers=1,
+                  extra_files={"run.cfg": "SPECIFICATION Spec\nINVARIANT InvEveryPositionCounts\nINVARIANT InvPlainStaysPlain\nCONSTRAINT Emit\nCHECK_DEADLOCK FALSE\n"},
+                  label="MC_InferMixed children x text positions x second sample", tags=("MIXED",), timeout=1500)
+    cases, seen = [], set()
+    for _t, c in res.printed:
+        key = json.dumps(c, sort_keys=True)
+        if key not in seen:
+            seen.add(key)
+            cases.append(c)
+    # every run: one text position at a time next to each kind of child (the corpus); the rest is drawn by the seed
+    corpus = [c for c in cases if len(c["texts"]) == 1 and len(c["kids"]) <= 2 and c["second"] == "none" and not c["sibling"]]
+    rest = [c for c in cases if c not in corpus]
+    rnd = random.Random(ctx.seed + 13)
+    picked = corpus + (rnd.sample(rest, min(len(rest), ctx.pick(40, 1500))))
+    for c in picked:
+        files = {"s0.xml": mixed_xml(c["kids"], set(c["texts"]), c["sibling"])}
+        if c["second"] == "plain":
+            files["s1.xml"] = mixed_xml(c["kids"], set(), c["sibling"])
+        elif c["second"] == "textElsewhere":
+            files["s1.xml"] = mixed_xml(c["kids"], {len(c["kids"])}, c["sibling"])
+        xml_files(ctx, files)
+    ctx.extra["mixed_sample_sets"] = len(picked)
+    # F44 (open): inside a MIXED element, a child name that occurs once with an attribute and once without
+    xml_files(ctx, {"s0.xml": '<Root><note>lead <em kind="k1">b1</em><em>x2</em></note></Root>'}, parse_tags=("F44",))
+    # ... its regular counterparts (the same without text; the attribute on every occurrence) are decided normally
+    xml_files(ctx, {"s0.xml": '<Root><note><em kind="k1">b1</em><em>x2</em></note></Root>'})
+    xml_files(ctx, {"s0.xml": '<Root><note>lead <em kind="k1">b1</em><em kind="k2">x2</em></note></Root>'})
 
 
 def xml_case(ctx, c, n):
     xml_files(ctx, {f"s{k}.xml": sample_xml(c["tns"], c["attrs"], d, k) for k, d in enumerate(c["samples"])})
 
 
-def xml_files(ctx, files):
+def xml_files(ctx, files, parse_tags=()):
     gen = cg.generate(files, sorted(files))
     try:
         info = {"samples": files}
@@ -229,7 +274,8 @@ def xml_files(ctx, files):
                     obj = XmlParser(context=xctx, config=STRICT).from_string(text, root)
                     out = XmlSerializer(context=xctx, config=SerializerConfig(xml_declaration=False)).render(obj)
                 except Exception as ex:  # noqa: BLE001
-                    ctx.violation(f"sample {name} does not parse into the class generated from it: {type(ex).__name__}: {ex}", {**info, "sample": text, "source": src})
+                    ctx.violation(f"sample {name} does not parse into the class generated from it: {type(ex).__name__}: {ex}",
+                                  {**info, "sample": text, "source": src, "finding_tags": list(parse_tags) if "Unknown attribute" in str(ex) else []})
                     continue
             if any(issubclass(x.category, ConverterWarning) for x in w):
                 ctx.violation(f"sample {name} parses with a conversion warning", {**info, "sample": text, "source": src})
